@@ -98,7 +98,7 @@ func validateRun(template string, res *RunResult, id string) (int, string) {
 	if len(cases) == 0 {
 		return 0, "no sampled path carried a witness"
 	}
-	dir := filepath.Join(verifDir, "replays", "last", id)
+	dir := filepath.Join(outDir, "replays", "last", id)
 	os.MkdirAll(dir, 0755)
 	cf := filepath.Join(dir, "native-cases-"+res.Cfg.Name+".json")
 	b, _ := json.MarshalIndent(cases, "", " ")
